@@ -505,6 +505,7 @@ def run(chk, repo, tier):
     r1(chk, repo, models)
     r2(chk, repo, models)
     r3(chk, repo)
+    r4(chk, repo)
 
 
 # --------------------------------------------------------------------------- R2
@@ -617,3 +618,38 @@ def r2(chk, repo, models):
                     chk.violation("R2", "%s: branch on self.%s" % (key, a), where(c, ln), "'%s' tests self.%s, which is written at run time by %s (line %d): the outcome of this call depends on earlier evaluations / linearisations" % (txt, a, wm, wl))
             else:
                 chk.ok("R2", key, f.where, "no branch on run-time instance state")
+
+
+# --------------------------------------------------------------------------- R4
+def r4(chk, repo, rule="R4", consumers=None, min_decided=15):
+    """Evaluation order: in a group that is evaluated once per run (no iterative
+    nonlinear solver) every subsystem is added after the subsystems that produce
+    its inputs; a backward edge makes an output depend on the previous run."""
+    from ..groups import all_group_models
+    from ..wiring import edges, level_view
+    from .c02 import ITERATIVE_NONLINEAR
+
+    chk.rule(rule, "in every group evaluated with the default run-once solver each subsystem's inputs are produced by subsystems added earlier (promoted names and explicit connections resolved per option valuation); a consumer placed before its producer would use the values of the previous evaluation", min_decided=min_decided)
+    for gm in all_group_models(repo, chk):
+        g = gm.cls
+        for gr in gm.runs:
+            for owner in gr.owners():
+                nls = gr.solvers.get((owner, "nonlinear_solver"))
+                if nls and nls[0] in ITERATIVE_NONLINEAR:
+                    continue
+                lv = level_view(repo, gr, owner)
+                es = edges(repo, gr, owner, lv)
+                key0 = "%s[%s]" % (g.name, owner)
+                bad = []
+                for p, c, n, kind, e in es:
+                    if p in lv.order and c in lv.order and lv.order.index(p) > lv.order.index(c):
+                        if consumers is not None:
+                            cc = [s.cls_name for s in gr.subs_of(owner) if s.name and s.name.replace("[0]", "[i]") == c]
+                            if not cc or cc[0] not in consumers:
+                                continue
+                        bad.append((p, c, n, kind))
+                if bad:
+                    for p, c, n, kind in sorted(set(bad)):
+                        chk.violation(rule, "%s: %s reads '%s' produced later by %s" % (key0, c, n, p), g.where, "subsystem '%s' is added before '%s', which produces its input '%s' (%s) under %s: with the run-once solver it sees the value of the previous evaluation (zeros on the first run)" % (c, p, n, kind, sig_txt(gr.sigma)))
+                elif es:
+                    chk.ok(rule, "%s %s" % (key0, sig_txt(gr.sigma)), g.where, "%d data edges, all forward" % len(es))
